@@ -1192,7 +1192,7 @@ class t2data(object):
         """Reads rock-specific initial conditions from file"""
         line = infile.readline()
         while line.strip():
-            rockname = line[0: 5]
+            rockname = padstring(line.rstrip('\n'))[0: 5]
             variables = infile.read_values('indom2')
             variables = trim_trailing_nones(variables)
             self.indom[rockname] = variables
@@ -1202,7 +1202,7 @@ class t2data(object):
         if self.indom:
             outfile.write('INDOM\n')
             for rockname, inc in self.indom.items():
-                outfile.write(rockname + '\n')
+                outfile.write('%5s\n' % rockname)
                 outfile.write_values(inc, 'indom2')
             outfile.write('\n')
 
